@@ -197,11 +197,8 @@ def representable (x : Scalar) (dt : DType) : Bool :=
 def kindDType : Kind → DType
   | .b => .bool | .i => .int64 | .f => .float
 
-/-- The property's default: INT64 / FLOAT / BOOL by the Python type (of the first element for a list). -/
+/-- INT64 / FLOAT / BOOL by the Python type of the value (of the first element for a list). -/
 def pyDefault (l : Lit) : DType := kindDType l.head.kind
-
-/-- `_get_dtype` (eager): by the Python type of the value / of the first list element. -/
-def dynDefault (l : Lit) : DType := kindDType l.head.kind
 
 /-- `ir.tensor(value)` with `dtype=None` (converter `_emit_const`; builder when nothing is bound):
 int→INT64, float→FLOAT, all-int list→INT64, all-float list→FLOAT, otherwise NumPy's inference
@@ -213,6 +210,21 @@ def irDefault (l : Lit) : DType :=
   else if es.all Scalar.isB then .bool
   else if es.all (fun e => !e.isF) then .int64
   else .double
+
+/-- `np.array(list).dtype` for a list of Python bools/ints/floats. -/
+def numpyInfer (l : Lit) : DType :=
+  if l.elems.all Scalar.isB then .bool
+  else if l.elems.all (fun e => !e.isF) then .int64
+  else .double
+
+/-- `_get_dtype` (eager), since fa769b8: a list mixing Python types gets NumPy's inferred dtype; otherwise by the
+Python type of the value / of the first list element. -/
+def dynDefault (l : Lit) : DType :=
+  if l.homogeneous then kindDType l.head.kind else numpyInfer l
+
+/-- The rule's default when no sibling shares the type constraint: INT64 / FLOAT / BOOL by Python type; for a list
+mixing Python types, the NumPy common type (what all three front ends produce since fa769b8). -/
+def ruleDefault (l : Lit) : DType := irDefault l
 
 /-! ## Signatures and arguments -/
 
@@ -381,9 +393,8 @@ def castDynamic (fs : List (Formal κ)) (args : List Arg) : Except Err (List Out
 
 end
 
-/-- `GraphBuilder._get_or_create_constant` accepts scalars and lists whose elements are all
-`isinstance(v, type(value[0]))` (so `[1, True]` passes, `[True, 1]` and `[1, 2.5]` do not). -/
-def builderAccepts (l : Lit) : Bool :=
+/-- `all(isinstance(v, type(value[0])) for v in value)` (so `[1, True]` passes, `[True, 1]` and `[1, 2.5]` do not). -/
+def sameTypeAsHead (l : Lit) : Bool :=
   match l with
   | .s _ => true
   | .l x xs =>
@@ -392,8 +403,21 @@ def builderAccepts (l : Lit) : Bool :=
     | .i => xs.all (fun e => e.isI || e.isB)
     | .f => xs.all Scalar.isF
 
-/-- Builder default dtype: `_PYTHON_TYPE_TO_DTYPE` (int→INT64, float→FLOAT), bool left to `ir.tensor`. -/
-def builderDefault (l : Lit) : DType := kindDType l.head.kind
+/-- `GraphBuilder._get_or_create_constant` accepts every scalar and (since fa769b8) every list of Python numbers. -/
+def builderAccepts (_l : Lit) : Bool := true
+
+/-- The dtype the builder passes to `ir.tensor` when nothing is bound: `_PYTHON_TYPE_TO_DTYPE.get(type(value[0]))`
+(int→INT64, float→FLOAT, bool→None) when all elements are instances of the first one's type, else None. -/
+def builderKeyDType (l : Lit) : Option DType :=
+  if sameTypeAsHead l then
+    (match l.head.kind with
+     | .i => some .int64
+     | .f => some .float
+     | .b => Option.none)
+  else Option.none
+
+/-- Builder default dtype: the above, `None` left to `ir.tensor`'s inference. -/
+def builderDefault (l : Lit) : DType := (builderKeyDType l).getD (irDefault l)
 
 def builderConst (l : Lit) (dt : Option DType) : Except Err Out :=
   if builderAccepts l then npConst l (dt.getD (builderDefault l)) else .error .refused
@@ -430,7 +454,7 @@ def castBuilder (fs : List (Formal κ)) (args : List Arg) : Except Err (List Out
 /-- The dtype the rule assigns to a literal in slot `s`: that of a sibling sharing the type constraint,
 else INT64 / FLOAT / BOOL by Python type. -/
 def ruleDType (sa : List (Slot κ × Arg)) (s : Slot κ) (l : Lit) : DType :=
-  ((targetFirst sa s).map (·.1)).getD (pyDefault l)
+  ((targetFirst sa s).map (·.1)).getD (ruleDefault l)
 
 /-- The rule for one argument. -/
 def emitExpected (sa : List (Slot κ × Arg)) (p : Slot κ × Arg) : Out :=
